@@ -262,7 +262,7 @@ def main(argv=None):
     tasks = []
     for i, c in enumerate(api.REGISTRY):
         if c.prop == prop or prop in c.also:
-            if args.only and args.only not in c.label:
+            if args.only and not any(x in c.label for x in args.only.split("|")):
                 continue
             if c.proof == "table":
                 continue          # assumed at call sites; discharged by a table obligation
